@@ -24,7 +24,10 @@ RULE = (
     "leaf's .grad must agree in None-ness and value, under different S1 schedules for world and twin; when the "
     "model's default sets overlap, the defaulted call must be rejected (raise) and leave every .grad bitwise "
     "unchanged. Programs contain diamonds, deep chains, detached sub-graphs, non-grad leaves, multi-output ops "
-    "and leaves reached both through and around the features. Non-trivial: >=2 discovered leaves; distinct = "
+    "and leaves reached both through and around the features. S3 history (about a third of the runs, world side "
+    "only, result wiped): an earlier defaulted call on the same retained graph from other roots or with another "
+    "exclusion (backward on losses/features before mtl_backward, mtl_backward before backward on the losses) -- "
+    "a discovery must not depend on discoveries made before. Non-trivial: >=2 discovered leaves; distinct = "
     "digest of (ops, shapes, api, which lists are defaulted, discovered sets)."
 )
 REAL = ["torchjd.autojac._utils._get_leaf_tensors / _get_descendant_accumulate_grads", "torchjd.autojac.backward / mtl_backward", "torch.autograd graph (grad_fn.next_functions)"]
@@ -49,6 +52,13 @@ def generate(rng, tier, index):
             "chunk": gen_chunk(rng, m), "retain": rng.random() < 0.5,
         }
         roles = None
+        prelude = None
+        if rng.random() < 0.3:
+            # S3 history: an earlier default discovery from other roots of the same (retained) graph
+            outs0 = pick_outputs(rng, g)
+            if outs0:
+                m0 = sum(numel(g.shape[o]) for o in outs0)
+                prelude = {"api": "backward", "tensors": outs0, "inputs": None, "agg": gen_det_agg(rng, m0, dtype), "chunk": None, "retain": True}
     else:
         r = gen_mtl(rng, dtype, p_probe=0.05)
         if r is None:
@@ -81,7 +91,27 @@ def generate(rng, tier, index):
         # outside C13's retain_graph=False scope, so such calls retain the graph
         if head_crosses_trunk(spec, {**call, "tasks": None}):
             call["retain"] = True
-    return {"spec": spec, "roles": roles, "call": call, "sched": gen_sched(rng, spec), "twin_sched": gen_sched(rng, spec), "pre_grads": gen_pre_grads(rng, spec)}
+        prelude = None
+        u = rng.random()
+        if u < 0.15:
+            # S3 history: the losses were differentiated by a defaulted backward() before (no exclusion)
+            sub = [x for x in losses if rng.random() < 0.7] or list(losses)
+            prelude = {"api": "backward", "tensors": sub, "inputs": None, "agg": gen_det_agg(rng, len(sub), dtype), "chunk": None, "retain": True}
+        elif u < 0.25:
+            # ... or the features were
+            mf = sum(numel(g.shape[f]) for f in feats if f in g.shape)
+            if mf >= 1:
+                prelude = {"api": "backward", "tensors": list(feats), "inputs": None, "agg": gen_det_agg(rng, mf, dtype), "chunk": None, "retain": True}
+        elif u < 0.4:
+            # ... or the other way round: a defaulted mtl_backward (discovery with the features excluded) came
+            # first and the checked call is a defaulted backward() on the losses
+            prelude = {**copy.deepcopy(call), "retain": True}
+            prelude.pop("which", None)
+            call = {"api": "backward", "tensors": list(losses), "inputs": None, "agg": gen_det_agg(rng, t, dtype), "chunk": gen_chunk(rng, t), "retain": rng.random() < 0.5}
+    scn = {"spec": spec, "roles": roles, "call": call, "sched": gen_sched(rng, spec), "twin_sched": gen_sched(rng, spec), "pre_grads": gen_pre_grads(rng, spec)}
+    if prelude is not None:
+        scn["prelude"] = prelude
+    return scn
 
 
 def execute(scn):
@@ -131,9 +161,23 @@ def execute(scn):
         require_valid(model, explicit)
     world = World(spec, scn["sched"])
     apply_pre_grads(world, scn.get("pre_grads", {}))
+    stats["api_calls"] = 0
+    if scn.get("prelude"):
+        # history only on the world side: the twin has never seen a discovery. What the earlier call
+        # deposited is wiped (its outcome is not judged here), the graph is retained.
+        pre = copy.deepcopy(scn["prelude"])
+        pre["retain"] = True
+        out0, _ = run_call(world, pre)
+        stats["api_calls"] += 1
+        stats["reach.history_prior_discovery"] = 1
+        stats["reach.history_prior_%s_then_%s" % (pre["api"], call["api"])] = 1
+        events.append(["prelude", out0["ok"], out0["exc"]])
+        for n in world.leaf_names:
+            world.t[n].grad = None
+        apply_pre_grads(world, scn.get("pre_grads", {}))
     before = world.grads()
     out, _ = run_call(world, call)
-    stats["api_calls"] = 1
+    stats["api_calls"] += 1
     stats["sweeps"] = count_sweeps(world.log.events)
     if out.get("discover_calls"):
         stats["reach.discover_seam"] = 1
@@ -197,6 +241,10 @@ def execute(scn):
 
 def shrink(scn):
     call = scn["call"]
+    if scn.get("prelude"):
+        s = copy.deepcopy(scn)
+        del s["prelude"]
+        yield s
     if scn.get("pre_grads"):
         s = copy.deepcopy(scn)
         s["pre_grads"] = {}
@@ -230,6 +278,9 @@ def shrink(scn):
                 del s["call"]["features"][i]
                 yield s
         protected = list(call["losses"]) + list(call["features"])
+    if scn.get("prelude"):
+        pre = scn["prelude"]
+        protected = protected + list(pre.get("tensors") or []) + list(pre.get("losses") or []) + list(pre.get("features") or [])
     for spec2 in spec_candidates(scn["spec"], protected):
         s = copy.deepcopy(scn)
         s["spec"] = spec2
